@@ -44,7 +44,7 @@ VALUES = [None, True, 1, 1.0, "1", [], {}, [1], [True], {"a": 1}, {"a": True}, "
 def plan(tier, seed):
     specs = [{"kind": "single", "doc": i, "ops": ops} for i in range(len(DOCS)) for ops in (["add", "replace", "test", "remove"], ["move"], ["copy"])]
     for _ in range(6 if tier == "quick" else 20):
-        specs.append({"kind": "sequences", "n": 2500 if tier == "quick" else 15000})
+        specs.append({"kind": "sequences", "n": 2500 if tier == "quick" else 60000})
     return specs
 
 
